@@ -2,12 +2,33 @@
 
 from __future__ import annotations
 
+import collections.abc
 import hashlib
 import json
 import math
 from collections import Counter
 from dataclasses import dataclass, field
 from typing import Any, Callable, Dict, Iterable, List, Optional
+
+
+
+class SeqView(collections.abc.Sequence):
+    """A read-only sequence that is neither a list nor a tuple (what a user's own container, a pandas-free
+    record set or a lazily indexed collection looks like to code that declares ``Sequence``)."""
+
+    def __init__(self, items):
+        self._items = list(items)
+
+    def __len__(self):
+        return len(self._items)
+
+    def __getitem__(self, i):
+        if isinstance(i, slice):
+            return SeqView(self._items[i])
+        return self._items[i]
+
+    def __repr__(self):
+        return f"SeqView({self._items!r})"
 
 
 class Violation(Exception):
